@@ -191,8 +191,16 @@ static long run_ops(int k){
           else if (__sync_bool_compare_and_swap(&ucw[u], old, old | 2)){ U("U_UcWaitCall", 2, (long)k, UCID(u)); myth_uncond_wait(&ucs[u]); U("U_UcWaitRet", 2, (long)k, UCID(u)); } }
         break; }
     case OP_ONCE: U("U_OnceCall", 2, (long)k, ONID(o->a)); myth_once(&onces[o->a], o->a == 0 ? once_fn0 : once_fn1); U("U_OnceRet", 2, (long)k, ONID(o->a)); break;
-    case OP_FEWL: U("U_FeWaitLockCall", 3, (long)k, FEID(o->a), (long)o->b); myth_felock_wait_and_lock(&fes[o->a], o->b); U("U_FeWaitLockRet", 3, (long)k, FEID(o->a), (long)o->b); break;
-    case OP_FEMS: U("U_FeMarkCall", 3, (long)k, FEID(o->a), (long)o->b); myth_felock_mark_and_signal(&fes[o->a], o->b); U("U_FeMarkRet", 3, (long)k, FEID(o->a), (long)o->b); break;
+    case OP_FEWL: /* a = felock, b = status to wait for; c = 1: consume (count), 2: produce */
+      U("U_FeWaitLockCall", 5, (long)k, FEID(o->a), (long)o->b, VMX(fes[o->a].mutex), VCV(&fes[o->a].cond[o->b]));
+      myth_felock_wait_and_lock(&fes[o->a], o->b);
+      U("U_FeWaitLockRet", 3, (long)k, FEID(o->a), (long)o->b);
+      if (o->c == 1) consumed[o->a]++; else if (o->c == 2) produced[o->a]++;
+      break;
+    case OP_FEMS:
+      U("U_FeMarkCall", 5, (long)k, FEID(o->a), (long)o->b, VMX(fes[o->a].mutex), VCV(&fes[o->a].cond[o->b]));
+      myth_felock_mark_and_signal(&fes[o->a], o->b);
+      U("U_FeMarkRet", 3, (long)k, FEID(o->a), (long)o->b); break;
     case OP_BUSY: { volatile int j; for (j = 0; j < o->a; j++) { } break; }
     default: fprintf(stderr, "mythprog: unknown op %d\n", o->op); exit(2);
     }
